@@ -563,10 +563,110 @@ func methodCallOn(info *types.Info, call *ast.CallExpr, fld *types.Var) (string,
 	if !ok {
 		return "", false
 	}
-	if lastField(info, sel.X) != fld || fld == nil {
+	if fld == nil {
+		return "", false
+	}
+	if lastField(info, sel.X) != fld {
+		// through a local that holds the field's (reference-typed) value: callbacks := s.expressionCallbacks
+		if id := identOf(sel.X); id != nil {
+			if rhs := localAliasOf(info, id); rhs != nil && lastField(info, rhs) == fld {
+				return sel.Sel.Name, true
+			}
+		}
 		return "", false
 	}
 	return sel.Sel.Name, true
+}
+
+var aliasCache = map[*types.Info]map[types.Object]ast.Expr{}
+
+// localAliasOf: id names a local of reference type (pointer, map, slice, chan, func) assigned exactly once, by := or
+// var, from a call-free field path; returns that path. The local then denotes the same object as the path did.
+func localAliasOf(info *types.Info, id *ast.Ident) ast.Expr {
+	obj, ok := info.Uses[id].(*types.Var)
+	if !ok || obj.IsField() || obj.Pkg() == nil || obj.Parent() == obj.Pkg().Scope() {
+		return nil
+	}
+	switch obj.Type().Underlying().(type) {
+	case *types.Pointer, *types.Map, *types.Slice, *types.Chan, *types.Signature:
+	default:
+		return nil
+	}
+	cache := aliasCache[info]
+	if cache == nil {
+		cache = map[types.Object]ast.Expr{}
+		count := map[types.Object]int{}
+		note := func(l ast.Expr, rhs ast.Expr) {
+			lid, ok := l.(*ast.Ident)
+			if !ok {
+				return
+			}
+			o := info.Defs[lid]
+			if o == nil {
+				o = info.Uses[lid]
+			}
+			if o == nil {
+				return
+			}
+			count[o]++
+			cache[o] = rhs
+		}
+		for n := range info.Scopes {
+			file, ok := n.(*ast.File)
+			if !ok {
+				continue
+			}
+			ast.Inspect(file, func(q ast.Node) bool {
+				switch x := q.(type) {
+				case *ast.AssignStmt:
+					for i, l := range x.Lhs {
+						var rhs ast.Expr
+						if len(x.Lhs) == len(x.Rhs) && x.Tok == token.DEFINE {
+							rhs = x.Rhs[i]
+						}
+						note(l, rhs)
+					}
+				case *ast.ValueSpec:
+					for i, nm := range x.Names {
+						var rhs ast.Expr
+						if len(x.Values) == len(x.Names) {
+							rhs = x.Values[i]
+						}
+						note(nm, rhs)
+					}
+				case *ast.RangeStmt:
+					if x.Key != nil {
+						note(x.Key, nil)
+					}
+					if x.Value != nil {
+						note(x.Value, nil)
+					}
+				case *ast.IncDecStmt:
+					note(x.X, nil)
+				case *ast.UnaryExpr:
+					if x.Op == token.AND {
+						note(x.X, nil)
+						note(x.X, nil) // address taken: never an alias
+					}
+				}
+				return true
+			})
+		}
+		for o, k := range count {
+			if k != 1 {
+				cache[o] = nil
+			}
+		}
+		aliasCache[info] = cache
+	}
+	rhs := cache[obj]
+	if rhs == nil || !callFree(rhs) {
+		return nil
+	}
+	if root, fields := fieldChain(info, rhs); root == nil || len(fields) == 0 {
+		return nil
+	}
+	return rhs
 }
 
 // storesTo lists the field objects an assignment/incdec statement stores to (direct field stores only).
